@@ -28,6 +28,8 @@ DEFAULT_PROFILE = {
     "p_zero_delay": 0.0,
     "p_falsy_output": 0.0,
     "p_list_ctx": 0.0,
+    "p_callable_output": 0.0,
+    "p_ctx_delay": 0.0,
     "p_after_two": 0.15,
     "p_named_delay": 0.2,
     "p_invoke": 0.0,
@@ -433,6 +435,9 @@ class MachineGen:
                 c["type"] = "final"
                 if rng.random() < p["p_out"]:
                     c["output"] = {"from": n.key}
+                    if p.get("p_callable_output") and rng.random() < p["p_callable_output"]:
+                        # a dynamic output: a callable of {context, event}, resolved when the state completes
+                        c["output"] = {"$fn": {"k": "const", "name": f"out_{n.key}", "v": {"from": n.key, "dyn": True}}}
                     if p.get("p_falsy_output") and rng.random() < p["p_falsy_output"]:
                         # a legitimate result that happens to be falsy (0, False, "", [], {})
                         c["output"] = rng.choice((0, False, "", [], {}))
@@ -523,7 +528,12 @@ class MachineGen:
             key = str(d)
             if rng.random() < p["p_named_delay"]:
                 key = f"D{d}"
-                if rng.random() < 0.5:
+                if p.get("p_ctx_delay") and d and rng.random() < p["p_ctx_delay"]:
+                    # computed from the context at entry: 10 ms + 10 ms per unit of n (a back-off that grows)
+                    key = "Dctx"
+                    self.delays[key] = {"$fn": {"k": "ctx", "name": "delay_Dctx", "key": "n", "mul": 10, "add": 10}}
+                    d = None
+                elif rng.random() < 0.5:
                     self.delays[key] = d
                 else:
                     self.delays[key] = {"$fn": {"k": "const", "name": f"delay_{key}", "v": d}}
